@@ -61,6 +61,10 @@ type BatchSpec struct {
 	UseAlloc bool                  `json:"alloc,omitempty"`
 }
 
+// keepOperand is a merge operand that leaves the existing value (or absence) unchanged; the operator then
+// returns the existing slice itself, which is what operators like "max" or "keep first" do.
+const keepOperand = "="
+
 // mergeFold is the harness's order-sensitive merge operator: existing + ":" + operand.
 func mergeFold(existing *string, operand string) string {
 	if existing == nil {
@@ -78,6 +82,9 @@ func (n *Node) Apply(b *BatchSpec) {
 		case 'D':
 			delete(n.KV, o.Key)
 		case 'M':
+			if o.Val == keepOperand {
+				break
+			}
 			if v, ok := n.KV[o.Key]; ok {
 				n.KV[o.Key] = mergeFold(&v, o.Val)
 			} else {
@@ -108,12 +115,17 @@ func (appendMergeOperator) FullMerge(key, existing []byte, operands [][]byte) ([
 		s := string(existing)
 		cur = &s
 	}
+	changed := false
 	for _, o := range operands {
+		if string(o) == keepOperand {
+			continue // "keep what is there": the operator hands back the existing value itself
+		}
 		s := mergeFold(cur, string(o))
 		cur = &s
+		changed = true
 	}
-	if cur == nil {
-		return nil, true
+	if !changed {
+		return existing, true // the very slice it was given (like a "max" operator returning its input)
 	}
 	return []byte(*cur), true
 }
